@@ -32,7 +32,7 @@ META = dict(
               "connected}; failing listen-key creation on the first attempt (choice), failing first keep-alive request "
               "(choice); horizon 9 virtual s (binance) / 6 s, keep-alive "
               "period 2 s, back-off 1 s",
-        thorough="3 steps on the first connection, 2 on the second"),
+        thorough="3 steps on the first connection, 1 on the second"),
     stubs=["aiohttp session -> fake with ws_connect()/post(); fake socket implements __aiter__/send_str/close/closed",
            "core.websockets.time and binance.websockets.time -> virtual clock", "dispatcher -> minimal scheduler running "
            "jobs at their time on the virtual loop", "binance API client -> stub issuing listen keys and recording "
@@ -350,6 +350,12 @@ def scenario(ctx, client="binance", steps1=2, steps2=1):
         left = [r[2] for r in log if r[0] == conn and r[1] == "exit"]
         # (a connection that went quiet less than half a second before the horizon, or that was torn down within half
         # a second - e.g. because creating the listen key failed - may not have subscribed yet)
+        # a connection that stays up for a second has subscribed to something (a failing subscription attempt - e.g.
+        # listen-key creation failing - must end in a reconnect, not in a live connection nobody subscribed on)
+        alive_until = left[0] if left else out["end"]
+        if alive_until - connects[conn] >= 1.0:
+            ctx.cover("a connection stayed up for a second")
+            ctx.prove(bool(subs), "C18 a connection that stays up does not stay unsubscribed", info=(conn, alive_until))
         if not qt or ended(conn) is not None or qt[0] + 0.5 > out["end"] or (left and left[0] < qt[0] + 0.5):
             continue
         # every channel registered before this connection went quiet is subscribed on THIS connection
@@ -438,7 +444,7 @@ def scenario(ctx, client="binance", steps1=2, steps2=1):
 
 
 def jobs(tier):
-    s1, s2 = (2, 1) if tier == "quick" else (3, 2)
+    s1, s2 = (2, 1) if tier == "quick" else (3, 1)
     big = dict(split=100, max_paths=1000000, validate_every=100, sample_every=200)
     return [Job("binance", "scenario", dict(client="binance", steps1=s1, steps2=s2), **big),
             Job("bitstamp public", "scenario", dict(client="bitstamp_public", steps1=s1, steps2=s2), **big),
